@@ -420,7 +420,21 @@ def newton_rows(ctx, rule="C23.R6"):
     else:
         rep.bad(rule, C, sv, f"the result of the solve is not written to self.x[{var}] on every iteration", f"{ST}:{sv.lineno}")
     # -- c. returned slices (a return may delegate to a helper method that builds the Solution from a row count)
+    # a `break` out of the load-step loop on the non-convergence branch reaches the final return with an UNSOLVED row `var`
+    from ..model import guards_of
+    fail_breaks = [b for b in ast.walk(loop) if isinstance(b, ast.Break) and any(".success" in t and (t.startswith("not ") or not pol) for t, pol in guards_of(b, fn))]
     for call, in_loop, subst, where in solution_sites(ctx, fn, loop):
+        if not in_loop and fail_breaks:
+            his = set()
+            for sub in [w for w in ast.walk(call) if isinstance(w, ast.Subscript) and norm_src(w.value) in ("self.x", "self.load_steps")]:
+                sl = sub.slice.elts[0] if isinstance(sub.slice, ast.Tuple) else sub.slice
+                if isinstance(sl, ast.Slice) and sl.upper is not None:
+                    his.add(subst(norm_src(sl.upper)))
+            if f"{var} + 1" in his or not his:
+                rep.bad(rule, C, fail_breaks[0], f"the loop is left by `break` when load step `{var}` did not converge (line {fail_breaks[0].lineno}) and the return after the loop{where} selects rows "
+                        f"[0:{var} + 1]: the unconverged iterate of step `{var}`, already written to self.x[{var}], is returned as a load step (only rows [0:{var}] are solved)",
+                        f"{ST}:{fail_breaks[0].lineno}")
+                continue
         want_hi = var if in_loop else f"{var} + 1"
         alt_hi = None if in_loop else "self.nt"  # after the complete loop i + 1 == self.nt (a. and the loop bounds)
         for sub in [w for w in ast.walk(call) if isinstance(w, ast.Subscript) and norm_src(w.value) in ("self.x", "self.load_steps")]:
@@ -517,6 +531,11 @@ MUTANTS += [
 MUTANTS += [
     dict(id="c23-r9-seed", canary=True, what="[seeded by sub-agent] Riks: the solve of the zero-load first point loses options=options", file=ST,
          old="            jac=lambda x: self.J(np.concatenate((x, [0.0])))[:-1, :-1],\n            options=options,\n", new="            jac=lambda x: self.J(np.concatenate((x, [0.0])))[:-1, :-1],\n", expect="C23.R9"),
+]
+MUTANTS += [
+    dict(id="c23-r6-break", canary=True, what="[seeded by sub-agent] Newton: the failure branch breaks and the single return after the loop selects rows [: i + 1]", file=ST,
+         edits=[(ST, "                return Solution(\n                    system=self.system,\n                    t=self.load_steps[:i],\n                    q=self.x[:i, : self.split_x[0]],\n                    u=np.zeros((i, self.nu)),\n                    la_g=self.x[:i, self.split_x[0] : self.split_x[1]],\n                    la_c=self.x[:i, self.split_x[1] : self.split_x[2]],\n                    la_N=self.x[:i, self.split_x[2] :],\n                )\n", "                break\n"),
+                (ST, "            t=self.load_steps,\n", "            t=self.load_steps[: i + 1],\n")], expect=["C23.R6", "C23.R4"]),
 ]
 NEUTRAL = [
     dict(id="c23-n-r8", canary=True, what="Riks: loop bound `<` and report guarded by `>=`", file=ST,
